@@ -109,6 +109,8 @@ def countCapped (l : List Bytes) (v : Bytes) (cap : Int) (acc : Nat := 0) : Nat 
 def lremNumL (l : List Bytes) (count : Int) (v : Bytes) : Outcome Nat :=
   if count > l.length then .err
   else
+    -- a count below -size is clamped to -size
+    let count := if count < -(l.length : Int) then -(l.length : Int) else count
     let c := if count < 0 then wrap64 (-count) else count
     .ok (countCapped l v c)
 
@@ -128,8 +130,9 @@ def removeFirst (l : List Bytes) (v : Bytes) (n : Int) (removed : Nat := 0) : Li
       (x :: r, m)
 
 /-- `LRem` on a slice: new slice and `realRemovedNum`; `panic` when the copy loop runs past the
-allocated length (`count = MinInt64`). -/
+allocated length (cannot happen since counts below `-size` are clamped; kept as an outcome). -/
 def lremL (l : List Bytes) (count : Int) (v : Bytes) : Outcome (List Bytes × Nat) :=
+  let count := if count < -(l.length : Int) then -(l.length : Int) else count
   match lremNumL l count v with
   | .err => .err
   | .panic => .panic
